@@ -113,7 +113,7 @@ Section load.
                     n1 <- match savorize FUELK c n0 with
                           | Err ESeasoning => Err ERecognition
                           | r => r end ;;
-                    n2 <- (if is_objectlike k then process_attrs (process f) (params_of k) n1 else Ok n1) ;;
+                    n2 <- (if is_objectlike k && is_mapping n1 then process_attrs (process f) (params_of k) n1 else Ok n1) ;;
                     Ok (set_tag (bang c) n2)
                 end
             | TAny => Ok (strip_tags n)
@@ -310,7 +310,99 @@ Section load.
         end
     end.
 
+  (* ---- the same construction, also recording every call into user code (constructors of classes and of
+          string-like classes), in call order, including calls made before a later failure.  Used by the tie
+          only; Proofs/LogProofs.v shows its result component IS construct. ---- *)
+  Inductive call := CallInit (c : ustring) (args : list (ustring * value)) | CallStr (c : ustring) (s : ustring).
+  Definition logged (A : Type) : Type := (list call * result A)%type.
+  Definition lbind {A B} (m : logged A) (f : A -> logged B) : logged B :=
+    match snd m with
+    | Ok a => let r := f a in (fst m ++ fst r, snd r)
+    | Err e => (fst m, Err e)
+    end.
+  Definition lret {A} (r : result A) : logged A := ([], r).
+
+  Fixpoint constructL_items (rec : node -> logged value) (l : list node) : logged (list value) :=
+    match l with
+    | [] => lret (Ok [])
+    | x :: r => lbind (rec x) (fun x' => lbind (constructL_items rec r) (fun r' => lret (Ok (x' :: r'))))
+    end.
+  Fixpoint constructL_pairs (rec : node -> logged value) (l : list (node * node)) (acc : list (value * value))
+    : logged (list (value * value)) :=
+    match l with
+    | [] => lret (Ok acc)
+    | (k, v) :: r =>
+        lbind (rec k) (fun kv =>
+          if negb (hashable kv) then lret (Err EYaml)
+          else lbind (rec v) (fun vv => constructL_pairs rec r (dict_set kv vv acc)))
+    end.
+  Definition constructL_map (fuel : nat) (rec : node -> logged value) (ps : list (node * node))
+    : logged (list (value * value)) :=
+    match flatten fuel ps with
+    | Ok ps' => constructL_pairs rec ps' []
+    | Err e => lret (Err e)
+    end.
+
+  Fixpoint constructL (fuel : nat) (n : node) {struct fuel} : logged value :=
+    match fuel with
+    | O => lret (Err EFuel)
+    | S f =>
+        let tg := ntag n in
+        match class_of_tag reg tg with
+        | Some k =>
+            match c_shape k with
+            | ShEnum members =>
+                match n with
+                | Scalar _ v _ => lret (if umem v members then Ok (VEnum (c_name k) v) else Err ERecognition)
+                | _ => lret (Err ERecognition) end
+            | ShStr =>
+                match n with
+                | Scalar _ v _ => ([CallStr (c_name k) v],
+                                   if c_str_ok k v then Ok (VUStr (c_name k) v) else Err ERecognition)
+                | _ => lret (Err ERecognition) end
+            | ShObj params extra =>
+                match n with
+                | Map _ ps m =>
+                    if negb (str_keyed ps) then lret (Err ERecognition)
+                    else
+                      lbind (constructL_map fuel (constructL f) (strip_unknown (map p_name params) ps)) (fun mapping =>
+                        match init_args params extra mapping with
+                        | None => lret (Err ERecognition)
+                        | Some args => ([CallInit (c_name k) args],
+                                        if c_init_ok k args then Ok (VObj (c_name k) args) else Err ERecognition)
+                        end)
+                | _ => lret (Err ERecognition)
+                end
+            end
+        | None =>
+            if ueqb tg tag_path then
+              lret (match n with Scalar _ v _ => Ok (VPath v) | _ => Err ERecognition end)
+            else
+              match n with
+              | Scalar t v _ =>
+                  lret (if ueqb t tag_str then Ok (VStr v)
+                        else if ueqb t tag_null then Ok VNone
+                        else match olookup o t v with
+                             | Err (EPy _) => if uprefix core_prefix_colon t then Err ERecognition else Err (EPy PyOther)
+                             | r => r end)
+              | Seq t items _ =>
+                  if ueqb t tag_seq then lbind (constructL_items (constructL f) items) (fun l => lret (Ok (VList l)))
+                  else lret (Err EYaml)
+              | Map t ps _ =>
+                  if ueqb t tag_map then lbind (constructL_map fuel (constructL f) ps) (fun d => lret (Ok (VDict d)))
+                  else lret (Err EYaml)
+              end
+        end
+    end.
+
   Definition FUEL : nat := 200.
+
+  (* calls into user constructors made by a load (none if processing fails: construction never starts) *)
+  Definition load_calls (doc : option node) (T : ty) : list call :=
+    match process FUEL (match doc with Some n => n | None => Scalar tag_null [] nomark end) T with
+    | Ok n' => fst (constructL FUEL n')
+    | Err _ => []
+    end.
 
   (* yaml.load with this loader: no document => None (Loader.get_single_node) *)
   Definition load (doc : option node) (T : ty) : result value :=
